@@ -83,8 +83,23 @@ def run_driver(repo, out_dir, log=sys.stderr):
     env["CARGO_INCREMENTAL"] = "0"
     env.pop("RUSTC_WRAPPER", None)
     t = time.time()
+    # cargo caches the output of its rustc probes in .rustc_info.json, failures included: a probe that failed once
+    # (e.g. its working directory vanished) would be replayed for ever
+    info = os.path.join(TARGET, ".rustc_info.json")
+    try:
+        if os.path.exists(info) and '"success":false' in open(info).read():
+            os.remove(info)
+    except OSError:
+        pass
     r = subprocess.run(["cargo", "+nightly", "check", "--offline", "--lib", "--bins"], cwd=repo, env=env,
                        capture_output=True, text=True)
+    if r.returncode != 0 and "failed to run `rustc` to learn about target-specific information" in (r.stdout + r.stderr):
+        try:
+            os.remove(info)
+        except OSError:
+            pass
+        r = subprocess.run(["cargo", "+nightly", "check", "--offline", "--lib", "--bins"], cwd=repo, env=env,
+                           capture_output=True, text=True)
     if r.returncode != 0:
         tail = "\n".join((r.stdout + r.stderr).splitlines()[-60:])
         raise BuildFailed("cargo check failed on %s:\n%s" % (repo, tail[-6000:]))
